@@ -17,8 +17,11 @@
 
 package sql
 
+import "context"
+
 type XATx struct {
-	tx *Tx
+	tx   *Tx
+	conn *XAConn
 }
 
 // Commit do commit action
@@ -32,13 +35,23 @@ func (tx *XATx) Commit() error {
 
 func (tx *XATx) Rollback() error {
 	originTx := tx.tx
-	if originTx.tranCtx.OpenGlobalTransaction() && originTx.tranCtx.IsBranchRegistered() {
-		return originTx.report(false)
+	// end the branch and roll it back on this connection
+	var err error
+	if tx.conn != nil {
+		err = tx.conn.Rollback(context.Background())
 	}
-	return nil
+	if originTx.tranCtx.OpenGlobalTransaction() && originTx.tranCtx.IsBranchRegistered() {
+		if rerr := originTx.report(false); rerr != nil && err == nil {
+			err = rerr
+		}
+	}
+	return err
 }
 
-// commitOnXA commit xa and register branch transaction
+// commitOnXA ends the xa branch and prepares it; the second phase is the coordinator's
 func (tx *XATx) commitOnXA() error {
-	return nil
+	if tx.conn == nil {
+		return nil
+	}
+	return tx.conn.Commit(context.Background())
 }
